@@ -29,7 +29,8 @@ def step (line : String) : String :=
     match cfg?, lookupTable key, parseRat a, parseRat b, parseRat c, parseRat d, parseRat e, parseRat f, parseRat lo, parseRat hi with
     | some cfg, some tbl, some g11, some g22, some g33, some g23, some g13, some g12, some min2, some max2 =>
       let G : Form := { g11 := g11, g22 := g22, g33 := g33, g23 := g23, g13 := g13, g12 := g12 }
-      if !G.posDef || min2 < 0 || max2 < 0 then "bad" else
+      -- a negative `min2` stands for a negative lower bound (sgn·square, see harness/props/c05.py driver_line): every reflection is above it
+      if !G.posDef || max2 < 0 then "bad" else
       let x : Input := { cfg := cfg, tbl := tbl, G := G, min2 := min2, max2 := max2, fuel := 100000 }
       match x.segments with
       | none => "none"
